@@ -131,6 +131,32 @@ def check_soc_vs_fields(ctx, F, rid):
                       f'star-ness); _offset() and walk() rely on complete source-ordered children',
                       getattr(tok.node, 'lineno', 0), sample={'class': c.name, 'sequence': got})
         else:
+            # within one list expression (`ast.a + ast.b`, `[ast.x, *ast.y]`) the fields must come in FIELDS order
+            order = {f: i for i, (f, _) in enumerate(F[c])}
+            for fnode in T.func_nodes(ctx, tok):
+                p0 = fnode.args.args[0].arg if fnode.args.args else None
+                for x in ast.walk(fnode):
+                    e = None
+                    if isinstance(x, ast.Assign) and isinstance(x.value, (ast.BinOp, ast.List)):
+                        e = x.value
+                    elif isinstance(x, ast.Return) and isinstance(x.value, (ast.BinOp, ast.List)):
+                        e = x.value
+                    elif isinstance(x, ast.Call) and isinstance(x.func, ast.Attribute) and x.func.attr == 'extend' and x.args and \
+                            isinstance(x.args[0], (ast.BinOp, ast.List)):
+                        e = x.args[0]
+                    if e is None:
+                        continue
+                    if isinstance(e, ast.BinOp) and not isinstance(e.op, ast.Add):
+                        continue
+                    refs = sorted(((y.lineno, y.col_offset, y.attr) for y in ast.walk(e)
+                                   if isinstance(y, ast.Attribute) and isinstance(y.value, ast.Name) and y.value.id == p0 and y.attr in order))
+                    fl = [r[2] for r in refs]
+                    fl = [f for i, f in enumerate(fl) if f not in fl[:i]]
+                    if len(fl) >= 2:
+                        ctx.check(rid, fl == sorted(fl, key=order.get), 'astutil', tok.qualname, f'{c.name}: {norm(e, 60)}',
+                                  f'fields {fl} are concatenated out of syntax order (FIELDS[{c.name}] order is '
+                                  f'{sorted(fl, key=order.get)}); _offset() pops children from the end and stops at the first one that ends '
+                                  f'before the edit, walk() yields them in this order', e.lineno)
             missing = set(want) - seq
             ctx.check(rid, not missing and c.name in INTERLEAVED, 'astutil', tok.qualname, f'{c.name}: fields->children',
                       f'interleaved builder for {c.name} never puts field(s) {sorted(missing)} into `children`'
